@@ -545,3 +545,8 @@ def run(chk):
 
     chk.guard("O3.6", c03.SERVICE_UNIT, c03.service_typestate, chk)
     chk.guard("O3.7", c03.SERVICE_RUNNER, c03.sweep_rules, chk)
+    # the sweep hands every service to its runner from INSIDE the trio thread (send_nowait): the hand-over must never block or fail
+    chk.guard("O3.8", c03.TRIO_RUNNER, c03.channel_capacity, chk)
+    from . import c12
+
+    chk.guard("O3.7", c03.SERVICE_RUNNER, c12.flag_writers, chk, "O3.7")
